@@ -199,7 +199,13 @@ func runC09(r *R) {
 		r.Note("requests-spread-over-seconds")
 	}
 	var tgt *httpTarget
-	res := runHTTPPool(r, httpPoolSpec{Ammo: ammo, Gun: gun, Instances: inst, Tokens: total + 2, RPS: rps, Files: map[string][]byte{"/ammo/ammo.txt": file}},
+	// one run in five: the scheduler stalls tasks for up to 500 ms at scheduling points, so that instances are inside
+	// different phases of their shots at the same time
+	stalls := w.Draw(5) == 0
+	if stalls {
+		r.Note("injected-stalls")
+	}
+	res := runHTTPPool(r, httpPoolSpec{Ammo: ammo, Gun: gun, Instances: inst, Tokens: total + 2, RPS: rps, Stalls: stalls, Files: map[string][]byte{"/ammo/ammo.txt": file}},
 		func(nw *simnet.Net) {
 			nw.Latency = lat
 			if chunk > 0 {
@@ -389,7 +395,10 @@ func runC09(r *R) {
 				break
 			}
 		}
-		if len(cs) != len(conns) {
+		// a transport whose callers are stalled (injected stalls) may finish dialling a tunnel after
+		// an idle connection has already served the waiting request: that tunnel then stays unused - net/http's way, not a
+		// fault of the gun. Every connection that carried requests still needs its CONNECT.
+		if len(cs) < len(conns) || (len(cs) != len(conns) && !stalls) {
 			r.Fail("connect-count", "%d CONNECT requests for %d connections that carried requests", len(cs), len(conns))
 		}
 	}
